@@ -213,6 +213,36 @@ def run_shard(desc):
         judge([np.array(u) for u in ind.ubis], "repeated-search[%s]" % mode, case2)
         sh.evaluations += 1
         sh.nontrivial += 1
+    # (b2) the notebook driver indexing.do_index: peaks selected by ring (foridx = all rings), orientations generated from the two rings of
+    # highest multiplicity, looping over (fraction, hkl_tol) on one indexer; with and without an explicit unitcell object
+    import io, contextlib
+    from ImageD11 import columnfile as cfm2
+    for with_uc in (False, True):
+        cf = cfm2.colfile_from_dict({"gx": allgv[:, 0].copy(), "gy": allgv[:, 1].copy(), "gz": allgv[:, 2].copy(),
+                                     "omega": np.linspace(0.0, 180.0, len(allgv), endpoint=False)})
+        for k_, v in zip(("cell__a", "cell__b", "cell__c", "cell_alpha", "cell_beta", "cell_gamma"), cell):
+            cf.parameters.set(k_, v)
+        cf.parameters.set("cell_lattice_[P,A,B,C,I,F,R]", sym)
+        cf.parameters.set("wavelength", 0.3)
+        uc0 = ucm.unitcell(cell, sym)
+        uc0.makerings(dsmax + 0.01, 0.005)
+        nr = len(uc0.ringds)
+        top2 = sorted(sorted(range(nr), key=lambda r_: (-len(uc0.ringhkls[uc0.ringds[r_]]), r_))[:2])
+        case2 = {"lattice": li, "cell": cell, "sym": sym, "ngrains": ng, "data": "do_index:" + ("unitcell given" if with_uc else "cell from parameters"), "seed": seed_of()}
+        try:
+            with contextlib.redirect_stdout(io.StringIO()):
+                grains_found, ind = indexing.do_index(cf, dstol=0.005, hkl_tols=(0.01, 0.02), fracs=(0.9, 0.6), forgen=top2, foridx=list(range(nr)), max_grains=100,
+                                                      **({"unitcell": ucm.unitcell(cell, sym)} if with_uc else {}))
+        except Exception as e:
+            sh.violation("do_index:raises", case2, {"error": "%s: %s" % (type(e).__name__, str(e)[:200])})
+            continue
+        finally:
+            indexing.loglevel = 4
+        judge([np.array(g_.ubi) for g_ in grains_found], "do_index", case2)
+        if len(grains_found) != len(ind.ubis):
+            sh.violation("do_index:grains-differ-from-indexer", case2, {})
+        sh.evaluations += 1
+        sh.nontrivial += 1
     # (c) ONE unitcell object shared by two searches whose ring tables differ (a coarse ds_tol first, with a minpks nothing reaches, then
     # the fine one), the generating rings restricted to two rings: ring numbers mean different reflections in the two tables
     fine = sorted(mults)
